@@ -99,4 +99,38 @@ structure DecContract {σ : Type} (C : Codec σ) (Dec : Bytes → Option Bytes) 
      IsPre (v ++ (C.step s [] room Flush.full).out) x ∧
      R (C.step s [] room Flush.full).st u (v ++ (C.step s [] room Flush.full).out))
 
+/--
+Calling convention of a zlib-style **compressing** stream object (`deflate`, `lzma_code` on an encoder,
+`BZ2_bzCompress`), as documented by the three libraries, in the shape of `EncContract`: calls are only made
+with room (`avail_out > 0`); the answer is `OK`, `STREAM_END`, or — zlib and liblzma only — `BUF_ERROR`; a call
+answered `OK` has consumed or produced at least one byte; `STREAM_END` only to `FINISH`.  `R … true` is the state of
+a caller that has promised to go on with `FINISH` and no input, so a state good for any caller is good for it (`mono`).
+-/
+structure LibEncContract {τ : Type} (L : Lib τ) (b : Backend) (Dec : Bytes → Option Bytes) where
+  R : τ → Bytes → Bytes → Bool → Prop
+  pend : τ → Nat
+  init : R L.init [] [] false
+  mono : ∀ {s x y}, R s x y false → R s x y true
+  ret_ok : ∀ {s x y fin} (inp : Bytes) (room : Nat) (fl : Flush), R s x y fin → Proto fin fl inp → 0 < room →
+    (L.call s inp room fl).ret = LibRet.ok ∨ (L.call s inp room fl).ret = LibRet.streamEnd ∨
+    ((L.call s inp room fl).ret = LibRet.bufError ∧ b ≠ Backend.bzip2)
+  consumed_le : ∀ {s x y fin} (inp : Bytes) (room : Nat) (fl : Flush), R s x y fin → Proto fin fl inp → 0 < room →
+    (L.call s inp room fl).consumed ≤ inp.length
+  out_le : ∀ {s x y fin} (inp : Bytes) (room : Nat) (fl : Flush), R s x y fin → Proto fin fl inp → 0 < room →
+    (L.call s inp room fl).out.length ≤ room
+  keep : ∀ {s x y fin} (inp : Bytes) (room : Nat) (fl : Flush), R s x y fin → Proto fin fl inp → 0 < room →
+    (L.call s inp room fl).ret ≠ LibRet.streamEnd →
+    R (L.call s inp room fl).st (x ++ inp.take (L.call s inp room fl).consumed) (y ++ (L.call s inp room fl).out)
+      (fin || (decide (fl = Flush.full) && decide ((L.call s inp room fl).consumed = inp.length)))
+  finish : ∀ {s x y fin} (inp : Bytes) (room : Nat) (fl : Flush), R s x y fin → Proto fin fl inp → 0 < room →
+    (L.call s inp room fl).ret = LibRet.streamEnd →
+    fl = Flush.full ∧ (L.call s inp room fl).consumed = inp.length ∧ R (L.reset (L.call s inp room fl).st) [] [] false ∧
+    (x ++ inp ≠ [] → Dec (y ++ (L.call s inp room fl).out) = some (x ++ inp))
+  progress : ∀ {s x y fin} (inp : Bytes) (room : Nat) (fl : Flush), R s x y fin → Proto fin fl inp → 0 < room →
+    (inp ≠ [] ∨ (fl = Flush.full ∧ x ≠ [])) → (L.call s inp room fl).ret ≠ LibRet.streamEnd →
+    0 < (L.call s inp room fl).consumed ∨ pend (L.call s inp room fl).st < pend s
+  bytes : ∀ {s x y fin} (inp : Bytes) (room : Nat) (fl : Flush), R s x y fin → Proto fin fl inp → 0 < room →
+    (inp ≠ [] ∨ fl = Flush.full) →
+    (L.call s inp room fl).ret = LibRet.ok → 0 < (L.call s inp room fl).consumed + (L.call s inp room fl).out.length
+
 end Sqfs.Xfrm
